@@ -83,7 +83,14 @@ func (g *AuthorizationModelGraph) Reversed() (*AuthorizationModelGraph, error) {
 			if !ok {
 				return nil, fmt.Errorf("%w: could not cast to AuthorizationModelEdge", ErrBuildingGraph)
 			}
-			graphBuilder.AddEdge(nextLine.To(), nextLine.From(), casted.edgeType, casted.tuplesetRelation, casted.conditions)
+			// Keep the line's ID: lines are iterated in map order here, and the DOT encoder orders parallel lines
+			// between the same pair of nodes by ID, so fresh IDs would make the output of a reversed graph unstable.
+			graphBuilder.SetLine(&AuthorizationModelEdge{
+				Line:             multi.Line{F: nextLine.To(), T: nextLine.From(), UID: nextLine.ID()},
+				edgeType:         casted.edgeType,
+				tuplesetRelation: casted.tuplesetRelation,
+				conditions:       casted.conditions,
+			})
 		}
 	}
 
